@@ -7,12 +7,6 @@ import IbcVerif.Lemmas.ChainMap
 namespace IbcVerif.Chain
 open FMap
 
-/- keep the elaborator from evaluating the external-answer helpers while it normalises `Decidable`
-   instances of handler guards (they bottom out in string parsing) -/
-attribute [local irreducible] parseClientId route clientStatus clientLatestHeight clientTimestampAt verify
-  nanosToSecsU64 timeoutInternalSec blockInternalSec v2TimeoutWindow packetValidV2 wrapI64
-  isAllowedRelayer baseClient pickVersion isSupportedVersion sendV2ClientGuards
-
 /-- split a hypothesis `handler … = .ok s'` along all branches of the handler, discarding the
     branches that return an error -/
 macro "esplit " h:ident : tactic =>
@@ -119,36 +113,32 @@ theorem timeoutOnCloseV1_ok {s s' : ChainState} {env : Env} {p : PacketV1} {nsr 
 
 /-! ### IBC v2 -/
 
+theorem bind_ok_iff {α β : Type} (x : Except String α) (f : α → Except String β) (b : β) :
+    x.bind f = .ok b ↔ ∃ a, x = .ok a ∧ f a = .ok b := by
+  cases x <;> simp [Except.bind]
+theorem optGet_ok_iff {α : Type} (o : Option α) (e : String) (a : α) : optGet o e = .ok a ↔ o = some a := by
+  cases o <;> simp [optGet]
+theorem sendChecksV2_ok {s : ChainState} {env : Env} {src : Id} {tt seq : Nat} {payloads : List Payload} {cpId : Id}
+    (h : sendChecksV2 s env src tt payloads = .ok (cpId, seq)) :
+    (∃ pfx, s.cpV2.get src = some (cpId, pfx)) ∧ s.nextSend.get src = some seq := by
+  unfold sendChecksV2 at h
+  simp only [bind_ok_iff, optGet_ok_iff, Except.ok.injEq, Prod.mk.injEq] at h
+  obtain ⟨cp, hcp, _, _, n, hn, _, _, _, _, h1, h2⟩ := h
+  subst h2
+  exact ⟨⟨cp.2, by rw [hcp, ← h1]⟩, hn⟩
 theorem sendPacketV2_ok {s s' : ChainState} {env : Env} {src : Id} {tt seq : Nat} {payloads : List Payload}
     (h : sendPacketV2 s env src tt payloads = .ok (s', seq)) :
-    ∃ cp, s.cpV2.get src = some cp ∧ s.nextSend.get src = some seq ∧
-      s' = { s with nextSend := s.nextSend.set src (seq + 1),
-                    commitV2 := s.commitV2.set (src, seq) ⟨cp.1, tt, payloads⟩ } := by
+    ∃ cpId pfx, s.cpV2.get src = some (cpId, pfx) ∧ s.nextSend.get src = some seq ∧
+      s' = commitSendV2 s src seq ⟨cpId, tt, payloads⟩ := by
   unfold sendPacketV2 at h
-  cases hcp : s.cpV2.get src with
-  | none => simp [hcp] at h
-  | some cp =>
-    obtain ⟨cpId, pfx⟩ := cp
-    simp only [hcp] at h
-    cases hw : v2TimeoutWindow env tt with
-    | error e => simp [hw] at h
-    | ok u =>
-      simp only [hw] at h
-      cases hn : s.nextSend.get src with
-      | none => simp [hn] at h
-      | some n =>
-        simp only [hn] at h
-        by_cases hv : packetValidV2 payloads n tt
-        · simp only [hv, Bool.not_true, Bool.false_eq_true, if_false] at h
-          cases hg : sendV2ClientGuards s env src tt with
-          | error e => simp [hg] at h
-          | ok u2 =>
-            simp only [hg, Except.ok.injEq, Prod.mk.injEq] at h
-            obtain ⟨h1, h2⟩ := h
-            subst h2
-            exact ⟨_, rfl, rfl, h1.symm⟩
-        · simp [hv] at h
-
+  split at h
+  · cases h
+  · rename_i cpId n hc
+    simp only [Except.ok.injEq, Prod.mk.injEq] at h
+    obtain ⟨h1, h2⟩ := h
+    subst h2
+    obtain ⟨⟨pfx, hp⟩, hn⟩ := sendChecksV2_ok hc
+    exact ⟨cpId, pfx, hp, hn, h1.symm⟩
 theorem recvPacketV2_ok {s s' : ChainState} {env : Env} {p : PacketV2}
     (h : recvPacketV2 s env p = .ok s') :
     s.cpV2.get p.dst ≠ none ∧ s.receiptV2.get (p.dst, p.seq) = none ∧
